@@ -545,3 +545,51 @@ func EIA2(key [16]byte, count uint32, bearer, dir byte, msg []byte) uint32 {
 	t := CMAC(key, m)
 	return binary.BigEndian.Uint32(t[:4])
 }
+
+// ---------------------------------------------------------------------------------------------
+// single steps on arbitrary states (for lock-step comparison of the state machines on crafted states)
+
+// ZucLfsrStep: one LFSR update. v = 2^15 s15 + 2^17 s13 + 2^21 s10 + 2^20 s4 + (1 + 2^8) s0 mod (2^31 - 1), plus u in
+// initialisation mode; a result of 0 is replaced by 2^31 - 1.
+func ZucLfsrStep(s [16]uint32, init bool, u uint32) [16]uint32 {
+	const p = 0x7FFFFFFF
+	mulPow := func(x uint32, k uint) uint64 { return (uint64(x) << k) % p }
+	v := (mulPow(s[15], 15) + mulPow(s[13], 17) + mulPow(s[10], 21) + mulPow(s[4], 20) + mulPow(s[0], 8) + uint64(s[0])%p) % p
+	if init {
+		v = (v + uint64(u)%p) % p
+	}
+	if v == 0 {
+		v = p
+	}
+	var out [16]uint32
+	copy(out[:], s[1:])
+	out[15] = uint32(v)
+	return out
+}
+
+func ZucBR(s [16]uint32) [4]uint32 {
+	z := &Zuc{S: s}
+	z.br()
+	return z.X
+}
+
+func ZucF(x [4]uint32, r [2]uint32) (uint32, [2]uint32) {
+	z := &Zuc{X: x, R1: r[0], R2: r[1]}
+	w := z.f()
+	return w, [2]uint32{z.R1, z.R2}
+}
+
+func Snow3GClockFSM(lfsr [16]uint32, fsm [3]uint32) (uint32, [3]uint32) {
+	s := &Snow3G{S: lfsr, R1: fsm[0], R2: fsm[1], R3: fsm[2]}
+	f := s.clockFSM()
+	return f, [3]uint32{s.R1, s.R2, s.R3}
+}
+
+func Snow3GLfsrStep(lfsr [16]uint32, init bool, f uint32) [16]uint32 {
+	s := &Snow3G{S: lfsr}
+	if !init {
+		f = 0
+	}
+	s.clockLFSR(f)
+	return s.S
+}
